@@ -304,3 +304,65 @@ void h_s_fix_deletion(void)
     VF_END();
 }
 #endif
+
+#if defined(VF_S) && VF_S == 4
+/* ---- __cstl_bintree_erase(bt, bn): bn is unlinked; with two children its in-order successor y
+ *      (the leftmost node of the right subtree, here 1..3 levels down) takes its place.  The
+ *      in-order sequence loses exactly bn, every back-link is consistent, nothing outside the
+ *      touched links is written, size - 1.  (No mirror: the code is not symmetric.) ------------ */
+static void vf_erase_case(int pcase, int hasL, int rc, int hasYr, int hasRr, int hasMr)
+{
+    struct cstl_bintree_node * bn = BNP(0), * R_ = BNP(2), * y = BNP(4), * M = BNP(6), * succ, * x;
+    const struct cstl_bintree_node * res;
+    int before[2 * NN], nb, k, j; size_t size0; struct cstl_bintree_node * root0; struct cstl_rbtree_node above0;
+    vf_orient(0);
+    bn->l = hasL ? vf_mk_atom_req(1, 2, bn) : NULL;
+    if (rc == 0) { bn->r = NULL; succ = NULL; }
+    else if (!hasL) { bn->r = vf_mk_atom_req(2, 2, bn); succ = NULL; }      /* one child only: the right subtree is opaque */
+    else {
+        bn->r = R_; R_->p = bn;
+        R_->r = hasRr ? vf_mk_atom_req(3, 2, R_) : NULL;
+        if (rc == 1) { R_->l = NULL; succ = R_; }
+        else if (rc == 2) { R_->l = y; y->p = R_; succ = y; }
+        else { R_->l = M; M->p = R_; M->l = y; y->p = M; M->r = hasMr ? vf_mk_atom_req(7, 2, M) : NULL; succ = y; }
+        if (rc >= 2) { y->l = NULL; y->r = hasYr ? vf_mk_atom_req(5, 2, y) : NULL; }
+    }
+    for (k = 0; k < NN; k++) vf_n[k].c = nondet_bool() ? RED : BLK;
+    vf_place(bn, pcase);
+    vf_nseq = 0; vf_inorder(vf_top, 0); nb = vf_nseq; for (k = 0; k < nb; k++) before[k] = vf_seq[k];
+    vf_snapshot(); size0 = vf_bt.size; root0 = vf_bt.root; above0 = vf_above;
+    __CPROVER_assume(size0 >= 1);
+    res = __cstl_bintree_erase(&vf_bt, bn);
+    VF_ASSERT(vf_bt.size == size0 - 1, "erase: size drops by one");
+    VF_ASSERT(res == (succ != NULL ? succ : bn), "erase: reports the node whose position was given up (the successor's, when bn had two children)");
+    x = *vf_slot;
+    VF_ASSERT(x != bn, "erase: bn is no longer linked under its parent slot");
+    VF_ASSERT(vf_links(x, vf_snap[0].n.p, 0), "erase: every parent link in the neighbourhood points back");
+    vf_nseq = 0; vf_inorder(x, 0);
+    VF_ASSERT(vf_nseq == nb - 1, "erase: exactly one item fewer");
+    for (k = 0, j = 0; k < nb; k++) {
+        if (before[k] == 0) continue;
+        VF_ASSERT(j < vf_nseq && vf_seq[j] == before[k], "erase: the in-order sequence is the old one without bn");
+        j++;
+    }
+    vf_atoms_untouched();
+    VF_ASSERT(vf_slot == &vf_bt.root || (vf_bt.root == root0 && vf_above.n.p == above0.n.p && vf_above.c == above0.c &&
+              (vf_slot == &vf_above.n.l ? vf_above.n.r == above0.n.r : vf_above.n.l == above0.n.l)), "erase: nothing above the parent slot is written");
+    for (k = 0; k < NN; k++) VF_ASSERT(vf_n[k].c == vf_snap[k].c, "erase (bintree level): colours are not touched");
+}
+void h_s_erase(void)
+{
+    int pc, hl, rc, yr, rr, mr;
+    for (pc = 0; pc < 3; pc++) for (hl = 0; hl < 2; hl++) for (rc = 0; rc < 4; rc++)
+        for (yr = 0; yr < 2; yr++) for (rr = 0; rr < 2; rr++) for (mr = 0; mr < 2; mr++) {
+            /* parameters that do not shape the case are fixed to 0 */
+            if ((!hl || rc == 0) && (yr || rr || mr || rc > 1)) continue;
+            if (hl && rc == 1 && (yr || mr)) continue;
+            if (hl && rc == 2 && mr) continue;
+            VF_SCEN(1);
+            vf_erase_case(pc, hl, rc, yr, rr, mr);
+        }
+    VF_REACH(1, "all erase neighbourhood shapes visited");
+    VF_END();
+}
+#endif
